@@ -109,6 +109,25 @@ def _v(val):
     return lambda: copy.deepcopy(val)
 
 
+def _p_hist(model_key, **over):
+    """the same VALUES as _p(model_key, **over), but on objects with a
+    history: values assigned through the attribute after other values had
+    been set (init_value differs), fit bookkeeping left over from an earlier
+    optimisation (stderr, correl), user data attached.  None of this can
+    influence a fit."""
+    def make():
+        params = make_params(model_key)
+        for name, val in over.items():
+            params[name].set(value=float(val) * 1.25 + 1.0)
+            params[name].value = val
+        for i, par in enumerate(params.values()):
+            par.stderr = 0.125 * (i + 1)
+            par.correl = {"other": 0.5}
+            par.user_data = {"note": "kept from an earlier fit"}
+        return params
+    return make
+
+
 CATALOG = {
     "model_key": {
         "m_para": (_v("hertz_para"), False),
@@ -130,6 +149,16 @@ CATALOG = {
                        False),
         "q_para_expr": (_p("hertz_para", E=4000.,
                            baseline={"expr": "0*E"}), False),
+        # q_para_a again, on an object with a history
+        "q_para_a_hist": (_p_hist("hertz_para", E=5000.), False),
+        # expression-constrained parameter with bounds of its own (lmfit
+        # clips the expression value to them: they influence the result)
+        "q_para_expr_max": (_p("hertz_para", E=4000.,
+                               baseline={"expr": "0*E", "max": 1e-11}),
+                            False),
+        "q_para_expr_min": (_p("hertz_para", E=4000.,
+                               baseline={"expr": "0*E", "min": -1e-11}),
+                            False),
         "q_cone_a": (_p("hertz_cone", E=4000.), False),
         "q_cone_b": (_p("hertz_cone", E=4000., alpha=30.), False),
         "q_pyr_a": (_p("hertz_pyr3s", E=4000.), False),
@@ -206,7 +235,10 @@ CATALOG = {
     },
 }
 
-PARAMS_MODEL = {"q_para_near": "hertz_para", "q_para_max": "hertz_para", "q_para_expr": "hertz_para",
+PARAMS_MODEL = {"q_para_a_hist": "hertz_para",
+                "q_para_expr_max": "hertz_para",
+                "q_para_expr_min": "hertz_para",
+                "q_para_near": "hertz_para", "q_para_max": "hertz_para", "q_para_expr": "hertz_para",
                 "q_para_a": "hertz_para", "q_para_b": "hertz_para",
                 "q_para_cp": "hertz_para", "q_para_fixE": "hertz_para",
                 "q_para_min": "hertz_para", "q_cone_a": "hertz_cone",
